@@ -42,8 +42,9 @@ def adapt(run):
             out.append({"ev": "End", "quiescent": bool(ev["quiescent"])})
         if "obs" in ev and k != "end":
             o = ev["obs"]
-            nx = o.get("next", 0)
-            out.append({"ev": "ObsNext", "next": int(nx) if float(nx).is_integer() else -1})
+            if isinstance(o.get("next"), (int, float)):              # (private state: compared only if readable)
+                nx = o["next"]
+                out.append({"ev": "ObsNext", "next": int(nx) if float(nx).is_integer() else -1})
             out.append({"ev": "ObsRc", "rc": o["rc"]})
     return out
 
